@@ -137,8 +137,8 @@ Definition parse_edge_entry (kv : string * json) : option (Z * list (string * fl
 Section Reload.
 Variable float_paths : list (list string).
 
-(* [null_edges_ok]: the unchanged code calls .items() on the stored value, so a null (include_edge_bins off)
-   raises; the proposed repair (C01-5.diff) keeps None *)
+(* [null_edges_ok] = true: the code as it is (since /repo c3a9d07e) keeps a stored null (include_edge_bins off) as
+   None; false: the reader before that commit, which called .items() on it and raised (regression witness) *)
 Definition hourly_from_doc_gen (null_edges_ok : bool) (d : json) : option hourly_state :=
   do st <- field "settings" d;
   do _tf <- bind (field "train_features" st) parse_strings;
@@ -174,8 +174,8 @@ Definition hourly_from_doc_gen (null_edges_ok : bool) (d : json) : option hourly
           hs_y := y; hs_coef := coef; hs_intercept := icpt; hs_metrics := bm; hs_warnings := ws; hs_dq := dq;
           hs_error := err; hs_tz := tz; hs_version := ver |}.
 
-Definition hourly_from_doc := hourly_from_doc_gen false.
-Definition hourly_from_doc_repaired := hourly_from_doc_gen true.
+Definition hourly_from_doc := hourly_from_doc_gen true.
+Definition hourly_from_doc_before_c3a9d07e := hourly_from_doc_gen false.
 
 End Reload.
 
